@@ -3,6 +3,7 @@
 // or D-Bus is owned here.
 #include "wrap.h"
 #include "sim.h"
+#include "sched/sched.h"
 
 #include <dirent.h>
 #include <errno.h>
@@ -52,6 +53,8 @@ long __real_syscall(long, ...);
 }
 
 namespace sim {
+bool isSocketFd(int fd);
+ssize_t schedSocketRead(int fd, void* buf, size_t n);
 
 thread_local int g_bypass = 0;
 
@@ -378,7 +381,9 @@ int __wrap_nanosleep(const struct timespec* req, struct timespec* rem) {
   if (!armed())
     return __real_nanosleep(req, rem);
   int64_t d = (int64_t)req->tv_sec * 1000000000LL + req->tv_nsec;
-  if (!R.plan.get("sleep_noadvance", false).asBool())
+  if (sched::active())
+    sched::sleepFor(d);
+  else if (!R.plan.get("sleep_noadvance", false).asBool())
     R.now_ns += d;
   record("sleep", "", "", "", d);
   probe("sleep");
@@ -398,7 +403,9 @@ int __wrap_clock_nanosleep(clockid_t clk, int flags,
       base += 1700000000LL * 1000000000LL;
     d = d > base ? d - base : 0;
   }
-  if (!R.plan.get("sleep_noadvance", false).asBool())
+  if (sched::active())
+    sched::sleepFor(d);
+  else if (!R.plan.get("sleep_noadvance", false).asBool())
     R.now_ns += d;
   record("sleep", "", "", "", d);
   probe("sleep");
@@ -763,6 +770,8 @@ ssize_t __wrap_write(int fd, const void* buf, size_t n) {
 }
 
 ssize_t __wrap_read(int fd, void* buf, size_t n) {
+  if (sched::active() && g_bypass == 0 && isSocketFd(fd))
+    return schedSocketRead(fd, buf, n);
   return __real_read(fd, buf, n);
 }
 
